@@ -3,6 +3,7 @@
 
    list                               -> name|role|fvars|tmask|ivars|file:line|ok|shape ; ...
    eval <site> <nf> <rat>*nf <int>*   -> p/q     (FloatModel value of the site's expression)
+   probes                             -> name|file:line|time|kept,..|ok ; ...
    wt <site>                          -> weight demanded by the sink, weight of the expression
 -/
 import OQuPyVerif.Model.Proto
@@ -19,6 +20,10 @@ def showSite (s : Site) : String :=
   s!"{",".intercalate (s.tmask.map (fun b => if b then "1" else "0"))}|{",".intercalate s.ivars}|" ++
   s!"{s.file}:{s.line}|{if s.ok then "ok" else "BAD"}|{shape}"
 
+def keptName : Kept → String
+  | .discard => "discard" | .validate => "validate" | .shape => "shape"
+  | .dtype => "dtype" | .value => "value" | .unknown => "unknown"
+
 def findSite (nm : String) : Option Site := sites.find? (fun s => s.name == nm)
 
 def step (line : String) : String :=
@@ -34,6 +39,10 @@ def step (line : String) : String :=
       | some fl, some il => showRat (s.evalF fl il)
       | _, _ => "bad-op"
     | _, _ => "bad-op"
+  | ["probes"] =>
+    ";".intercalate (probes.map (fun p =>
+      s!"{p.name}|{p.file}:{p.line}|{p.time}|{",".intercalate (p.kept.map keptName)}|" ++
+      s!"{if p.ok then "ok" else "BAD"}"))
   | ["wt", nm] =>
     match findSite nm with
     | some s => s!"{s.role.weight} {match wt s.tmask s.expr with | some w => toString w | none => "none"}"
